@@ -22,6 +22,11 @@ def meaning : ATree V Y → List (Key × V)
     (meaning lo).map (fun kv => (l.bits ++ false :: kv.1, kv.2)) ++
     (meaning hi).map (fun kv => (l.bits ++ true :: kv.1, kv.2))
 
+/-- the tree of extras Go builds -/
+def extras : ATree V Y → AugExtras Y
+  | leaf _ y _ => .leaf y
+  | fork _ y lo hi => .fork y (extras lo) (extras hi)
+
 /-- leaf: label, extra, value; fork: label, extra and the two branches (the extra's own refs come after them) -/
 def toCell (pay : V → List Bool × List Cell) (xpay : Y → List Bool × List Cell) : Nat → ATree V Y → Cell
   | m, leaf l y v => Cell.ordinary (l.enc m ++ ((xpay y).1 ++ (pay v).1)) ((xpay y).2 ++ (pay v).2)
@@ -30,18 +35,17 @@ def toCell (pay : V → List Bool × List Cell) (xpay : Y → List Bool × List 
       (toCell pay xpay (m - l.bits.length - 1) lo :: toCell pay xpay (m - l.bits.length - 1) hi :: (xpay y).2)
 end ATree
 
-/-- the extra decoder consumes exactly the serialised extra -/
-def SkipsExtra {Y : Type} (skipX : List Bool → List Cell → Outcome (List Bool × List Cell))
-    (xpay : Y → List Bool × List Cell) : Prop :=
-  ∀ y rb rr, skipX ((xpay y).1 ++ rb) ((xpay y).2 ++ rr) = .ok (rb, rr)
+/-- the extra decoder reads back the serialised extra and consumes exactly it -/
+def DecodesExtra {Y : Type} (xdec : XDec Y) (xpay : Y → List Bool × List Cell) : Prop :=
+  ∀ y rb rr, xdec ((xpay y).1 ++ rb) ((xpay y).2 ++ rr) = .ok (y, rb, rr)
 
-theorem mapInnerAug_toCell {V Y : Type} (skipX : List Bool → List Cell → Outcome (List Bool × List Cell))
+theorem mapInnerAug_toCell {V Y : Type} (skipX : XDec Y) (zero : Y)
     (C : Codec V) (pay : V → List Bool × List Cell) (xpay : Y → List Bool × List Cell)
-    (hskip : SkipsExtra skipX xpay) (n : Nat) (hn : n < 2 ^ 64) (t : ATree V Y) :
+    (hskip : DecodesExtra skipX xpay) (n : Nat) (hn : n < 2 ^ 64) (t : ATree V Y) :
     (∀ kv ∈ t.meaning, DecodesValue C pay kv.2) →
     ∀ (m : Nat) (pfx : Key) (fuel : Nat), t.Valid m → pfx.length + m = n → m < fuel →
-      mapInnerAug skipX C n fuel (m : Int) (t.toCell pay xpay m) pfx =
-        .ok (t.meaning.map fun kv => (pfx ++ kv.1, kv.2)) := by
+      mapInnerAug skipX zero C n fuel (m : Int) (t.toCell pay xpay m) pfx =
+        .ok (t.meaning.map (fun kv => (pfx ++ kv.1, kv.2)), t.extras) := by
   induction t with
   | leaf l y v =>
     intro hdec m pfx fuel hv hlen hf
@@ -54,7 +58,7 @@ theorem mapInnerAug_toCell {V Y : Type} (skipX : List Bool → List Cell → Out
     have h1 : ¬ ((pfx ++ l.bits).length < n) := by simp; omega
     have ht1 : ¬ ((0 : Nat) = tyPruned) := by decide
     have ht2 : ¬ ((0 : Nat) = tyLibrary) := by decide
-    simp only [ht1, ht2, h1, if_false, hskip y, hdv, ATree.meaning, List.map_cons, List.map_nil]
+    simp only [ht1, ht2, h1, if_false, hskip y, hdv, ATree.meaning, ATree.extras, List.map_cons, List.map_nil]
   | fork l y lo hi ihlo ihhi =>
     intro hdec m pfx fuel hv hlen hf
     have hdlo : ∀ kv ∈ lo.meaning, DecodesValue C pay kv.2 := fun kv hkv =>
@@ -79,7 +83,7 @@ theorem mapInnerAug_toCell {V Y : Type} (skipX : List Bool → List Cell → Out
     have hsk := hskip y [] []
     simp only [List.append_nil] at hsk
     simp only [hsk]
-    simp [ATree.meaning, List.map_append, List.map_map, Function.comp_def, List.append_assoc]
+    simp [ATree.meaning, ATree.extras, List.map_append, List.map_map, Function.comp_def, List.append_assoc]
 
 theorem atree_toCell_ty {V Y : Type} (pay : V → List Bool × List Cell) (xpay : Y → List Bool × List Cell)
     (t : ATree V Y) (m : Nat) : (t.toCell pay xpay m).ty = 0 := by
